@@ -361,7 +361,49 @@ pub fn nodes(cfg: &GenCfg, max_top: usize) -> BoxedStrategy<Vec<Node>> {
         }
         proptest::strategy::Union::new_weighted(v).boxed()
     });
-    proptest::collection::vec(node, 1..=max_top).prop_map(|v| fix_interrupts(normalize(v), false)).boxed()
+    proptest::collection::vec(node, 1..=max_top)
+        .prop_map(|v| {
+            let mut budget = MAX_NODES;
+            fix_interrupts(normalize(prune(v, &mut budget)), false)
+        })
+        .boxed()
+}
+
+/// Upper bound on the number of nodes of a generated template (DESIGN: size <= 60 nodes).
+pub const MAX_NODES: usize = 60;
+
+/// Keep the first `budget` nodes in source order, dropping the rest (bodies become shorter).
+pub fn prune(nodes: Vec<Node>, budget: &mut usize) -> Vec<Node> {
+    let mut out = Vec::new();
+    for n in nodes {
+        if *budget == 0 {
+            break;
+        }
+        *budget -= 1;
+        out.push(match n {
+            Node::Capture { name, body, open, close } => Node::Capture { name, body: prune(body, budget), open, close },
+            Node::If { arms, else_, close } => Node::If {
+                arms: arms.into_iter().map(|(c, b, t)| (c, prune(b, budget), t)).collect(),
+                else_: else_.map(|(b, t)| (prune(b, budget), t)),
+                close,
+            },
+            Node::Unless { cond, body, else_, open, close } => Node::Unless { cond, body: prune(body, budget), else_: else_.map(|(b, t)| (prune(b, budget), t)), open, close },
+            Node::Case { target, whens, else_, open, close } => Node::Case {
+                target,
+                whens: whens.into_iter().map(|w| When { body: prune(w.body.clone(), budget), ..w }).collect(),
+                else_: else_.map(|(b, t)| (prune(b, budget), t)),
+                open,
+                close,
+            },
+            Node::For { var, coll, limit, offset, reversed, body, else_, open, close } => {
+                Node::For { var, coll, limit, offset, reversed, body: prune(body, budget), else_: else_.map(|(b, t)| (prune(b, budget), t)), open, close }
+            }
+            Node::TableRow { var, coll, cols, limit, offset, body, open, close } => Node::TableRow { var, coll, cols, limit, offset, body: prune(body, budget), open, close },
+            Node::IfChanged { body, open, close } => Node::IfChanged { body: prune(body, budget), open, close },
+            other => other,
+        });
+    }
+    out
 }
 
 /// Replace break/continue that are not inside a `for` body (or are inside a tablerow body) by
